@@ -25,7 +25,7 @@ for name in sorted(rows):
     out.append(f"| `{name}` | {tests} | {det} |")
 out.append("")
 out.append("## 15. Independently seeded changes (sub-agents)\n")
-out.append("One fresh sub-agent per property, given only the property text and a scratch worktree of /repo (nothing from /verif), asked for a realistic property-breaking change that compiles, passes the 46 tests and needs something specific to manifest, plus a demonstration.  Each was re-confirmed by `seeded/verify.sh` in a fresh scratch worktree (suite with the change, demonstration with and without it) before being kept in `seeded/<id>/` (patch.diff, demo, meta.json), then applied to /repo, checked with every quick check, and undone.\n")
+out.append("One fresh sub-agent per property, given only the property text and a scratch worktree of /repo (nothing from /verif), asked for a realistic property-breaking change that compiles, passes the 46 tests and needs something specific to manifest, plus a demonstration.  Each was re-confirmed by `seeded/verify.sh` in a fresh scratch worktree (suite with the change, demonstration with and without it) before being kept in `seeded/<id>/` (patch.diff, demo, meta.json), then applied to /repo, checked with every quick check, and undone.  Five rounds (19 + 19 + 19 + 19 + 8 changes); after each `fix:` commit in /repo the patches that no longer applied were re-based by hand (the original is kept as `patch.before-*.diff`), re-confirmed with `seeded/reverify.sh` (suite and demonstration, with and without) and all of them re-checked with `seeded/recheck.sh`; this table is the state after the last fix.  Three changes are obsolete: the defect they introduced depended on code a fix removed, and the patched code is correct on the fixed tree.\n")
 out.append("| seeded for | change (what it needs to manifest) | repo suite / demo with / demo without | detected by (quick tier) |\n|---|---|---|---|")
 for d in sorted(glob.glob('/verif/seeded/C*/meta.json')):
     m=json.load(open(d))
